@@ -99,6 +99,20 @@ func run(dir string, env []string, stdin []byte, name string, args ...string) (s
 	return so.Bytes(), se.Bytes(), exit, err
 }
 
+var goEnvCache sync.Map
+
+// goEnvValue is `go env <name>` of the harness process (kept for the pristine runs, which must still find the
+// toolchain's caches: only what the plugin itself may have written is hidden from them).
+func goEnvValue(name string) string {
+	if v, ok := goEnvCache.Load(name); ok {
+		return v.(string)
+	}
+	out, _, _, _ := run("", GoEnv, nil, "go", "env", name)
+	v := strings.TrimSpace(string(out))
+	goEnvCache.Store(name, v)
+	return v
+}
+
 // GoEnv is the offline Go environment.
 var GoEnv = []string{"GOFLAGS=-mod=mod", "GOPROXY=off", "GOSUMDB=off", "GOTOOLCHAIN=local"}
 
@@ -161,11 +175,14 @@ func WriteYAML(e *Env, p *spec.Program) string {
 }
 
 // RunPlugin runs the real plugin once on a program.
-func RunPlugin(e *Env, p *spec.Program) *GenResult {
+func RunPlugin(e *Env, p *spec.Program) *GenResult { return RunPluginEnv(e, p, nil) }
+
+// RunPluginEnv is RunPlugin with extra environment variables for the plugin process.
+func RunPluginEnv(e *Env, p *spec.Program, env []string) *GenResult {
 	r := &GenResult{Prog: p}
 	yamlPath := WriteYAML(e, p)
 	req := mkreq.Build(&p.Spec, ParamFor(p, yamlPath))
-	so, se, ex, err := run(e.Run, nil, req, e.Pgt)
+	so, se, ex, err := run(e.Run, env, req, e.Pgt)
 	r.Exit = ex
 	if err != nil {
 		r.Exit = -1
@@ -616,7 +633,23 @@ func Repeat(e *Env, progs []*spec.Program, n int) map[string][]string {
 			sem <- struct{}{}
 			defer func() { <-sem }()
 			for k := 0; k < n; k++ { // sequential per program: the runs share the configuration file
-				r := RunPlugin(e, p)
+				var env []string
+				if k == n-1 && n > 1 {
+					// the last run sees a pristine home, cache and temporary directory: the response is a function of
+					// the request (C14), not of what earlier runs of the plugin left on disk
+					d, err := os.MkdirTemp(e.Run, "pristine")
+					if err == nil {
+						defer os.RemoveAll(d)
+						for _, sub := range []string{"home", "cache", "config", "tmp"} {
+							os.MkdirAll(filepath.Join(d, sub), 0o755)
+						}
+						gocache, gomod := goEnvValue("GOCACHE"), goEnvValue("GOMODCACHE")
+						env = []string{"HOME=" + filepath.Join(d, "home"), "XDG_CACHE_HOME=" + filepath.Join(d, "cache"),
+							"XDG_CONFIG_HOME=" + filepath.Join(d, "config"), "TMPDIR=" + filepath.Join(d, "tmp"),
+							"GOCACHE=" + gocache, "GOMODCACHE=" + gomod, "GOPATH=" + goEnvValue("GOPATH")}
+					}
+				}
+				r := RunPluginEnv(e, p, env)
 				h := r.SHA
 				if r.Exit != 0 {
 					h = fmt.Sprintf("exit%d", r.Exit)
